@@ -245,7 +245,7 @@ def sweep_fat_header(quick):
 
 R_NAME_FAMILIES = {"dots": ["KICK.1", "KICK.2", "V1.5 PAD"], "dotend": ["A.", "B.", ".C"], "dash": ["A-", "B-", "-C"],
                    "symbols": ["A#B", "A&B", "A'B"], "case": ["kick", "Kick", "KICK"], "digits": ["1", "2", "10"],
-                   "long16": ["ABCDEFGHIJKLMNOP", "ABCDEFGHIJKLMNOQ", "ABCDEFGHIJKLMN.P"], "spaces": ["A B", "A  B", "A B C"], "wavext": ["kick", "kick.wav", "kick.WAV"]}
+                   "long16": ["ABCDEFGHIJKLMNOP", "ABCDEFGHIJKLMNOQ", "ABCDEFGHIJKLMN.P"], "spaces": ["A B", "A  B", "A B C"], "wavext": ["kick", "kick.wav", "kick.WAV"], "dup": ["KICK", "KICK", "SNARE"], "dup3": ["KICK", "KICK", "KICK"]}
 
 
 def sweep_names(quick):
@@ -302,7 +302,9 @@ def run_case(case):
             if w.errors:
                 return False, "invalid-wav", {"path": p_, "errors": w.errors[:2]}
             got.append((w.fmt["channels"], w.fmt["rate"], w.data))
-        want = sorted(expected.values())
+        # (by content: a list, not a dict keyed by path -- equal names are part of the families)
+        want = sorted((1, R.FREQS[model["samples"][si].get("freq", 1)], R.sample_pcm(model["samples"][si]))
+                      for p_ in sorted(model["performances"]) for si in R.reachable_samples(model, p_))
         if sorted(got) != want or len(res["reported"]) != len(want):
             return False, "names:samples-lost-or-changed", {"samples": sorted(expected), "files": sorted(res["files"]),
                                                             "reported": res["reported"]}
@@ -326,7 +328,7 @@ class Check(CheckBase):
             "volume->performance->patch->partial->sample relations [thorough: all pairs of flips], no volumes, four "
             "samples per partial, unreferenced sample, orphan performance; (slots) every assignment of a partial's four sample "
             "slots over {unused, 3 samples}, sparse and completely filled partial / patch / performance lists incl. the last slot; (fatheader) "
-            "free-cluster count word x FAT version x chain length 1,2,4 x order; (highslots) items in the highest / middle slots of each directory area (performance 511, patch 1023, partial 4095, sample 8191), orphan performances behind free directory slots; (sharedchain) two samples in one chain: 6 chain orders x 6 offset pairs x same partial / other performance; (names) 9 families of special name shapes x "
+            "free-cluster count word x FAT version x chain length 1,2,4 x order; (highslots) items in the highest / middle slots of each directory area (performance 511, patch 1023, partial 4095, sample 8191), orphan performances behind free directory slots; (sharedchain) two samples in one chain: 6 chain orders x 6 offset pairs x same partial / other performance; (names) 11 families (incl. two / three distinct samples with one name) of special name shapes x "
             "3 volume/performance names, judged by content only; the window, topology, slots, names and sharedchain cases export "
             "twice from one image object and the second export must equal the first. non-trivial = permuted chain, cluster_top>0, "
             "reverse mode, window ending on a cluster boundary, or a flipped edge")
